@@ -40,8 +40,13 @@ res['demo_passes_without_change'] = ok
 try:
     ap = run(['git', 'apply', os.path.join(d, 'patch.diff')])
     if ap.returncode != 0:
-        res['apply_error'] = ap.stdout
-        raise SystemExit
+        # the patch was made against an older HEAD of /repo: try a three-way merge
+        ap = run(['git', 'apply', '--3way', os.path.join(d, 'patch.diff')])
+        run(['git', 'reset', '-q'])
+    if ap.returncode != 0:
+        res['apply_error'] = ap.stdout[-800:]
+        print('PATCH DOES NOT APPLY to /repo HEAD', res['repo_head'], ap.stdout[-400:])
+        raise KeyError('apply')
     ok, out = suite()
     res['suite_passes_with_change'] = ok
     if not ok:
@@ -57,6 +62,8 @@ try:
         print(c, 'exit', r.returncode, 'in %.0fs' % (time.time() - t0))
         for l in viol[:6]:
             print('   ', l[:260])
+except KeyError:
+    pass
 finally:
     run(['git', 'checkout', '--', '.'])
     run(['git', 'clean', '-fdq', '--', '.'])
